@@ -146,7 +146,10 @@ def impl_case(case):
                     a_, b_ = kwd["location"][0], kwd["location"][1]
                     edits = sum(1 for i in range(a_, b_) if start[i] != s[i])
                     if edits > kwd["max_edits"]:
-                        bad.append("%d edits in the region %d-%d protected by AvoidChanges(max_edits=%d)" % (edits, a_, b_, kwd["max_edits"]))
+                        if (a_, b_) == (0, len(s)):
+                            bad.append("the edit allowance of a whole-sequence AvoidChanges is exceeded (%d edits, max_edits=%d)" % (edits, kwd["max_edits"]))
+                        else:
+                            bad.append("%d edits in the region %d-%d protected by AvoidChanges(max_edits=%d)" % (edits, a_, b_, kwd["max_edits"]))
                 if d[0] == "EnforceGCContent" and kwd["location"] is None:
                     w = kwd["window"]
                     ext = s + s[:w - 1]
